@@ -234,6 +234,7 @@ fn sign(payload: &Value) -> Option<String> {
 }
 
 pub fn run_case(ctx: &mut Ctx, case: &Value, every_target: bool) {
+    crate::real::set_current(case);
     ctx.report.evaluations += 1;
     let ic = match issue_ref(ctx, case) {
         Some(ic) => ic,
@@ -266,6 +267,7 @@ pub fn run_case(ctx: &mut Ctx, case: &Value, every_target: bool) {
         let mut c2 = case.clone();
         c2["defect_kind"] = json!(kind);
         c2["defect_target"] = json!(target);
+        real::set_current(&c2);
         let depth = mark_by_id(&ic.marks, target).depth;
         let nested = !mark_by_id(&ic.marks, target).ancestors.is_empty();
         ctx.report.bump(&format!("defect:{}", kind));
